@@ -218,7 +218,10 @@ def run_op(case, fns):
         env = fns[1].__globals__
         flag = fns[1].__code__.co_flags & __future__.annotations.compiler_flag
         src = 'def _mk(f):\n    @functools.wraps(f)\n    def _w(*args, **kwargs):\n        return f(*args, **kwargs)\n    return _w\n'
-        exec(compile(src, '<verif-c11-wraps>', 'exec', flag, dont_inherit=True), env)
+        # (its source can be read: automatic discovery looks at the wrapper's body)
+        wfn = '<verif-c11-wraps-%d>' % next(_counter)
+        linecache.cache[wfn] = (len(src), None, src.splitlines(True), wfn)
+        exec(compile(src, wfn, 'exec', flag, dont_inherit=True), env)
         w = env['_mk'](fns[0])
         if ex['pick'] % 3 == 0:
             w = functools.partial(w)        # ... and a partial object over the wrapper
